@@ -326,7 +326,7 @@ def run(ctx):
                 check_mntm(ctx, batch, md, w, B, "hand")
         else:
             run_machine(ctx, batch, md, words, B, "hand")
-    n = ctx.n(110, 700)
+    n = ctx.n(110, 450)
     for i in range(n):
         # deterministic single-tape table: all three simulators + cross-model verdicts
         md = T.rand_table(rng, k=1, nondet=False)
